@@ -885,6 +885,29 @@ func (pc *PolyCtx) divPoly(x *Term, k *big.Int, memo map[int]*Poly) (*Poly, erro
 		p.addPoly(b, new(big.Int).Neg(new(big.Int).Div(x.k, k)))
 		return p, nil
 	}
+	// cancel a common factor: floor(g*x' / (g*k')) = floor(x'/k')
+	{
+		l := linOf(x)
+		g := new(big.Int).Set(k)
+		if l.c.Sign() != 0 {
+			g.GCD(nil, nil, g, new(big.Int).Abs(l.c))
+		}
+		for _, c := range l.coefs {
+			g.GCD(nil, nil, g, new(big.Int).Abs(c))
+		}
+		if g.Cmp(bi(1)) > 0 && len(l.coefs) > 0 {
+			n := newLin()
+			for id, c := range l.coefs {
+				n.addAtom(l.atoms[id], new(big.Int).Div(c, g))
+			}
+			n.c = new(big.Int).Div(l.c, g)
+			nk := new(big.Int).Div(k, g)
+			if nk.Cmp(bi(1)) == 0 {
+				return pc.Of(n.build(), memo)
+			}
+			return pc.divPoly(n.build(), nk, memo)
+		}
+	}
 	out, rest, pulled := splitLin(linOf(x), k)
 	if pulled {
 		p, e := pc.Of(out.build(), memo)
